@@ -46,6 +46,33 @@ theorem calls_through_function_values_under_a_mutex :
       ["bus/net/endpoint.go endPoint.dispatch", "bus/service.go serviceImpl.Terminate",
        "bus/session/session.go Session.Terminate"] := by decide +kernel
 
+set_option maxRecDepth 100000 in
+/-- **What waits for another party under a mutex, directly or through calls.**  A wait (0 a channel send, 1 a channel
+    receive, 2 a message sent to a peer, 3 a call to a peer, 4 a `Wait`) is translated as a mutex of its own (900 + kind),
+    so `asks_edges` speaks of it too: these are all the pairs (mutex held somewhere on the stack, kind of wait) of bus/.
+    The directory announces a service under its mutex (that is what keeps the events in the order of the transitions —
+    C15); the log manager tells its listeners and calls its providers under its mutexes; `dispatch` answers a call it
+    cannot queue under the handler mutex (the listed finding of C12); the (un)registration of a subscription calls the
+    peer under the client's subscription mutex, which is what serialises registrations (C13); a service tells the
+    subscribers of its objects that it ends under its own mutex.  A change that makes anything else wait under a mutex —
+    a push into a mailbox under the read lock of the service (the seeded changes C16j, C12n), through however many
+    calls — changes this list. -/
+theorem what_waits_under_a_mutex_through_calls :
+    (norm (((edges T A).filter (fun e => 900 ≤ e.2)).map (fun e => e.1 * 1000 + e.2))).map
+        (fun c => (Gen.LockOrder.mutexes.getD (c / 1000) "?", c % 1000 - 900)) =
+      [("bus/directory.serviceDirectory.mutex", 2),
+       ("bus/logger.logManager.listenersMutex", 2),
+       ("bus/logger.logManager.providersMutex", 0),
+       ("bus/logger.logManager.providersMutex", 1),
+       ("bus/logger.logManager.providersMutex", 2),
+       ("bus/logger.logManager.providersMutex", 3),
+       ("bus/net.endPoint.handlersMutex", 2),
+       ("bus var lock", 0),
+       ("bus var lock", 1),
+       ("bus var lock", 2),
+       ("bus var lock", 3),
+       ("bus.serviceImpl.self", 2)] := by decide +kernel
+
 /-- the functions the models of C10–C19 speak about are in the table, and the mutexes they speak about are named -/
 theorem the_modelled_functions_are_there :
     (["bus/net/endpoint.go endPoint.dispatch", "bus/net/endpoint.go endPoint.closeWith",
